@@ -374,6 +374,10 @@ def check_point(ctx):
         ds, entry = fc.reaching(cur, at)
         info = draw_info(fc, pull)
         got = _resolve(fc, ast.parse(cur, mode="eval").body, at) if not entry and len(ds) == 1 else None
+        if got is None and inits[0][1][0] == "assign" and isinstance(inits[0][1][1], ast.List) and len(inits[0][1][1].elts) == 1:
+            # the chain's first element written out (the cursor is bound to the same expression next to it: checked by the
+            # lock-step rule above)
+            got = _resolve(fc, inits[0][1][1].elts[0], at)
         okd = info is not None and got is not None and got == drawn_cell_src(info)
         ctx.ob("R13-POINT", okd, c.file, q, "the chain starts at the drawn cell itself (the cell of the drawn record)",
                "%s is %s" % (cur, got) if got is not None else "%s" % [norm_src(r[1]) if r[0] == "assign" else r[0] for n, r in ds], at.line)
